@@ -1202,6 +1202,14 @@ def run(ck: Ck) -> None:
             # writer looks at its own view (it would see the cached value instead of the cleared lump)
             'late_pop_only_where_no_writer_looks_at_its_own_view':
                 f'negb bsp_save_pops_late || forallb (fun i => negb (mem i (v_wdeps (decl bsp_graph i)))) (seq 0 ({n}))',
+            # header versions of lumps (cells of the file no look touches; theorem c10_header_version_store_of_recorded_number_is_invisible):
+            # a writer stores into the header of its view's MAIN lump only, and only the number the reader recorded for this object
+            # (self.static_prop_version.version); a writer that stores another number (own mutation r4D) changes the lump version
+            'writers_store_only_the_header_version_the_reader_recorded':
+                'forallb (fun t => snd t && mem (snd (fst t)) (firstn 1 (own bsp_graph (fst (fst t))))) bsp_version_stores',
+            # ... and that number is the header number of the file: the reader looks the version up in a table keyed by `.version`
+            'recorded_version_has_the_header_number_of_the_file':
+                'match bsp_version_stores with nil => true | _ => bsp_version_table_keyed_by_header_number end',
             'readers_only_read_the_views_they_look_at': 'forallb (fun u => Nat.eqb (snd u) 0) bsp_reader_uses',
             'writers_only_read_or_append_to_the_views_they_look_at': 'forallb (fun u => Nat.leb (snd u) 1) bsp_writer_uses',
         })
@@ -1508,6 +1516,10 @@ def run(ck: Ck) -> None:
                    'restored_mutations_are_looked_at_by_reader_and_writer_and_unique',
                    'restored_mutations_happen_after_everything_that_can_raise',
                    'cleared_lumps_are_never_stored_conditionally'):
+            if inst.get(nm) is False:
+                ck.explain('instance:' + nm)
+    if 'game-lump-directory' in kinds:
+        for nm in ('writers_store_only_the_header_version_the_reader_recorded', 'recorded_version_has_the_header_number_of_the_file'):
             if inst.get(nm) is False:
                 ck.explain('instance:' + nm)
     if 'lost-after-aborted-save' in kinds and inst.get('aborted_save_puts_the_popped_view_back') is False:
